@@ -928,6 +928,32 @@ def check_exhaustive(ck, R):
     ck.ob(R, dc.key(None, "members-have-strategy"), not miss2, "every return-type member has a strategy" if not miss2 else
           "ResultType members without a strategy: %s" % sorted(miss2), dc.where())
     unreturned = set(members) - arg_only - returned
+    if unreturned:
+        # a member picked by a computed name (`ResultType["array_" + str(dtype)]`, `getattr(ResultType, name)`): which members can be
+        # produced is then a fact about strings, not about the shape of the classifier
+        computed = []
+        for x in A.walk_body(fo.node):
+            pick = None
+            if isinstance(x, ast.Subscript) and isinstance(x.ctx, ast.Load) and A.dotted(x.value) == "ResultType":
+                pick = x.slice
+            elif isinstance(x, ast.Call) and isinstance(x.func, ast.Name) and x.func.id == "getattr" and len(x.args) >= 2 and A.dotted(x.args[0]) == "ResultType":
+                pick = x.args[1]
+            if pick is None:
+                continue
+            names_ = None
+            try:
+                vals_ = possible_values(fo, pick, (fo.nodes(x) or [None])[0])
+                if vals_ and all(A.const_str(v_) is not None for v_ in vals_):
+                    names_ = {A.const_str(v_) for v_ in vals_}
+            except (AnalysisError, SyntaxError, AttributeError, TypeError, IndexError, KeyError):
+                pass
+            if names_ is None:
+                computed.append(x)
+            else:
+                returned |= names_ & set(members)
+        unreturned = set(members) - arg_only - returned
+        ck.need(not (unreturned and computed), "from_object picks a ResultType member by a computed name (`%s`): the members it can produce are not evident"
+                % (A.short(computed[0], 50) if computed else ""))
     ck.ob(R, fo.key(None, "members-classified"), not unreturned, "every return-type member is produced by from_object" if not unreturned else
           "from_object never produces %s" % sorted(unreturned), fo.where())
     # strategy kinds: exception -> JSON exception strategy, null -> null strategy, partition -> partition strategy
